@@ -10,17 +10,17 @@ open Coraza
 /-- Close: `tx.variables.reset()` empties every collection; nothing else is reset there -/
 def closeTx (tx : Tx) : Tx :=
   { tx with argsGet := {}, argsPost := {}, argsPath := {}, reqHeaders := {}, txc := {}, matchedVars := {},
-            matchedVar := [], matchedVarName := [], highestSeverity := 0 }
+            matchedVar := [], matchedVarName := [], highestSeverity := 0, respStatus := [] }
 
 /-- newTransaction on the object the pool hands back: the listed assignments, then the
     capture slots TX.0…TX.10 and the defaults (waf.go:258-275). `evalLog`/`errCb` are ghosts of
     the harness and start empty by definition. -/
-def newTx (mode : EngineMode) (old : Tx) : Tx :=
+def newTx (mode : EngineMode) (old : Tx) (ae : AuditEngine := .off) (parts : Bytes := []) : Tx :=
   { old with
       matched := [], intr := none, detIntr := none, skipAfter := [], engine := mode, lastPhase := 0,
       rmIds := [], rmRanges := [], rmTargets := [], skip := 0, allow := .unset, audit := false,
       txc := (List.range 11).foldl (fun m i => m.set1 (natToBytes i) []) old.txc,
-      highestSeverity := 255, evalLog := [], errCb := [] }
+      highestSeverity := 255, evalLog := [], errCb := [], auditEngine := ae, auditParts := parts, respStatus := [] }
 
 /-- a brand-new object (pool empty): zero value + the same initialisation -/
 def freshTx (mode : EngineMode) : Tx := newTx mode {}
